@@ -121,13 +121,13 @@ pub fn judge(property: &str, scn: &Scenario, rec: &RunRecord) -> Judgement {
     for o in &rec.ops {
         let d = o.t_ret_us - o.t_call_us;
         match &o.op {
-            Op::Assert { .. } => {
+            Op::Assert { .. } | Op::Reload => {
                 if let OpResult::Asserted { version: v } = &o.result {
                     // every instance was dropped by the harness before the knowledge base changed
                     models.clear();
                     current = None;
                     version = *v;
-                    bump(&mut cnt, "knowledge_base_grew");
+                    bump(&mut cnt, if o.op == Op::Reload { "knowledge_base_replaced" } else { "knowledge_base_grew" });
                 }
             }
             Op::New { h, q, .. } => {
